@@ -117,12 +117,25 @@ struct Slot {
     tid: AtomicI32,
     len: AtomicUsize,
     buf: std::cell::UnsafeCell<[u8; SLOT_BYTES]>,
+    /// number of outermost `trap` entries of this thread so far; odd bit 63 clear. 0 = never.
+    trap_seq: AtomicU64,
+    /// true while the thread is inside an outermost `trap` (the code under test is running)
+    in_trap: std::sync::atomic::AtomicBool,
+    /// value of trap_seq when the case text was last published
+    case_seq: AtomicU64,
 }
 unsafe impl Sync for Slot {}
 
 static SLOTS: [Slot; NSLOTS] = {
     #[allow(clippy::declare_interior_mutable_const)]
-    const S: Slot = Slot { tid: AtomicI32::new(0), len: AtomicUsize::new(0), buf: std::cell::UnsafeCell::new([0; SLOT_BYTES]) };
+    const S: Slot = Slot {
+        tid: AtomicI32::new(0),
+        len: AtomicUsize::new(0),
+        buf: std::cell::UnsafeCell::new([0; SLOT_BYTES]),
+        trap_seq: AtomicU64::new(0),
+        in_trap: std::sync::atomic::AtomicBool::new(false),
+        case_seq: AtomicU64::new(0),
+    };
     [S; NSLOTS]
 };
 static PROP_ID: Mutex<String> = Mutex::new(String::new());
@@ -168,6 +181,7 @@ pub fn set_case(text: &[u8]) {
         std::ptr::copy_nonoverlapping(text.as_ptr(), SLOTS[i].buf.get() as *mut u8, n);
     }
     SLOTS[i].len.store(n, Ordering::Release);
+    SLOTS[i].case_seq.store(SLOTS[i].trap_seq.load(Ordering::Relaxed), Ordering::Relaxed);
 }
 
 pub fn set_property(id: &str) {
@@ -191,7 +205,18 @@ fn write_all(fd: i32, mut b: &[u8]) {
 
 /// async-signal-safe: write the current thread's case to a replay file, print VIOLATION, _exit(1)
 pub fn fatal_current_case(kind: &str, what: &str) -> ! {
-    let tid = gettid();
+    fatal_case_of(gettid(), kind, what)
+}
+
+/// same for the case published by thread `tid` (used by the non-termination watchdog)
+pub fn fatal_case_of(tid: i32, kind: &str, what: &str) -> ! {
+    // several worker threads can fault at the same moment: the first one reports, the others wait
+    // for the process to exit
+    if FAULT_SEQ.fetch_add(1, Ordering::SeqCst) > 0 {
+        loop {
+            unsafe { libc::pause() };
+        }
+    }
     let mut idb = [0u8; 16];
     idb[..8].copy_from_slice(&PROP_ID_BYTES[0].load(Ordering::SeqCst).to_le_bytes());
     idb[8..].copy_from_slice(&PROP_ID_BYTES[1].load(Ordering::SeqCst).to_le_bytes());
@@ -252,6 +277,20 @@ extern "C" fn segv_handler(_sig: i32, _info: *mut libc::siginfo_t, _ctx: *mut li
     fatal_current_case("SIGSEGV", "memory access outside the supplied buffer (guard page hit)");
 }
 
+/// abort() while the code under test runs (inside `trap`): a panic that cannot unwind - e.g. one of
+/// std's unsafe-precondition checks (`slice::from_raw_parts`, `get_unchecked`, `copy_nonoverlapping`)
+/// firing, which means the library handed std an out-of-bounds range - or an explicit abort. That is
+/// an observation about the library (reported like a guard-page hit). An abort outside `trap` is a
+/// harness failure: fall through to the default action (status 134, reported as machinery).
+extern "C" fn abrt_handler(_sig: i32, _info: *mut libc::siginfo_t, _ctx: *mut libc::c_void) {
+    if IN_TRAP.with(|c| c.get()) > 0 {
+        fatal_current_case("SIGABRT", "abort inside the library under test (non-unwinding panic: an unsafe precondition check fired, i.e. an out-of-bounds or misaligned raw access was about to happen)");
+    }
+    unsafe {
+        libc::signal(libc::SIGABRT, libc::SIG_DFL);
+    }
+}
+
 pub fn install_fault_handlers() {
     unsafe {
         // alternate stack for the main thread; worker threads get theirs in `thread_init`
@@ -262,6 +301,11 @@ pub fn install_fault_handlers() {
         libc::sigemptyset(&mut sa.sa_mask);
         libc::sigaction(libc::SIGSEGV, &sa, std::ptr::null_mut());
         libc::sigaction(libc::SIGBUS, &sa, std::ptr::null_mut());
+        let mut sb: libc::sigaction = std::mem::zeroed();
+        sb.sa_sigaction = abrt_handler as usize;
+        sb.sa_flags = libc::SA_SIGINFO | libc::SA_ONSTACK;
+        libc::sigemptyset(&mut sb.sa_mask);
+        libc::sigaction(libc::SIGABRT, &sb, std::ptr::null_mut());
     }
 }
 
@@ -371,8 +415,19 @@ pub fn install_panic_hook() {
 
 /// run f, turning a panic into Err(message)
 pub fn trap<R>(f: impl FnOnce() -> R) -> Result<R, String> {
-    IN_TRAP.with(|c| c.set(c.get() + 1));
+    let depth = IN_TRAP.with(|c| {
+        c.set(c.get() + 1);
+        c.get()
+    });
+    let slot = if depth == 1 { Some(my_slot()) } else { None };
+    if let Some(i) = slot {
+        SLOTS[i].trap_seq.fetch_add(1, Ordering::Relaxed);
+        SLOTS[i].in_trap.store(true, Ordering::Relaxed);
+    }
     let r = std::panic::catch_unwind(std::panic::AssertUnwindSafe(f));
+    if let Some(i) = slot {
+        SLOTS[i].in_trap.store(false, Ordering::Relaxed);
+    }
     IN_TRAP.with(|c| c.set(c.get() - 1));
     r.map_err(|e| {
         if let Some(s) = e.downcast_ref::<&str>() {
@@ -386,6 +441,43 @@ pub fn trap<R>(f: impl FnOnce() -> R) -> Result<R, String> {
 }
 
 pub fn loud_panics() {}
+
+/// Non-termination watchdog. The code under test always runs inside `trap`, one case at a time, and a case
+/// takes microseconds; a thread that has been inside the SAME outermost `trap` call for `limit_s` seconds
+/// is reported as a hang of the library on that case (VIOLATION + exit 1, like a guard-page hit). Checks
+/// that legitimately run long inside one `trap` call do not exist (the isolated C18 subprocesses have
+/// their own 10 s watchdog and are not run under `trap`).
+pub fn start_watchdog(limit_s: u64) {
+    std::thread::Builder::new()
+        .name("watchdog".into())
+        .spawn(move || {
+            let period = 5u64;
+            let mut last = vec![(0u64, 0u64); NSLOTS]; // (trap_seq seen, seconds it has been unchanged while in_trap)
+            loop {
+                std::thread::sleep(std::time::Duration::from_secs(period));
+                for (i, sl) in SLOTS.iter().enumerate() {
+                    let tid = sl.tid.load(Ordering::Relaxed);
+                    if tid == 0 {
+                        continue;
+                    }
+                    let seq = sl.trap_seq.load(Ordering::Relaxed);
+                    if sl.in_trap.load(Ordering::Relaxed) && seq == last[i].0 {
+                        last[i].1 += period;
+                        if last[i].1 >= limit_s {
+                            if !(1..=4).contains(&seq.wrapping_sub(sl.case_seq.load(Ordering::Relaxed))) {
+                                // the published text belongs to an earlier call: do not attribute it
+                                sl.len.store(0, Ordering::Release);
+                            }
+                            fatal_case_of(tid, "HANG", "the library call on this case has not returned (non-termination watchdog)");
+                        }
+                    } else {
+                        last[i] = (seq, 0);
+                    }
+                }
+            }
+        })
+        .ok();
+}
 
 // ---------------------------------------------------------------------------------------------
 // violation collector + known findings
